@@ -77,6 +77,27 @@ package lspcommon
 //@   at call (*bytes.Buffer).Bytes#0 assert[splice-suffix] forall(j, end, len(contents), result[start + len(change.Text) + j - end] == contents[j])
 //@ end
 
+// The document table itself: a document is open exactly while it has an entry (whatever its text - an EMPTY text, even
+// one stored as a nil slice after deleting everything, is still an open document); what is read back is what was stored.
+//@ typeinv FileMapCache [C02]: self.m != nil
+//@ func CreateFileMapCache
+//@   props C02
+//@   ensures result != nil
+//@ end
+//@ func (*FileMapCache).SetFileContent
+//@   props C02
+//@   ensures[stored-under-its-path] has(fileMapCache.m, strFile) && fileMapCache.m[strFile].content == contents
+//@ end
+//@ func (*FileMapCache).GetFileContent
+//@   props C02
+//@   ensures[found-iff-the-document-has-an-entry] found <==> has(fileMapCache.m, strFile)
+//@   ensures[reads-back-what-was-stored] found ==> contents == fileMapCache.m[strFile].content
+//@ end
+//@ func (*FileMapCache).DelFileContent
+//@   props C02
+//@   ensures[closed-document-has-no-entry] !has(fileMapCache.m, strFile)
+//@ end
+
 // OffsetForPosition: cursor position -> byte offset (every cursor request goes through it).
 //@ func OffsetForPosition
 //@   props C01 C04
